@@ -2,7 +2,8 @@
    proofs: Proofs/HbProofs.v (grid, schedule, interval field, sequence, clipping, refutation), Proofs/HbProofsSilent.v (inactive nodes),
    Proofs/HbProofsFrame.v (frame lemmas over the whole node model).
    Not covered here: the group function handler for PGN 126993 (narrower range) - not part of the shared model.
-   Finding recorded as a refuted statement: `reenable-stays-off` (hb_reenable_stmt is false of model and C++). *)
+   The two repaired findings are ordinary theorems now: `reenable-stays-off` -> hb_reenable_stmt (and the disabled case of hb_clip_stmt),
+   `origin-hb-before-open` -> hb_open_resync_stmt. *)
 From Coq Require Import ZArith List Bool.
 From N2kV Require Import Base.ListAux Model.CanId Model.Sched Model.PgnClass Model.NodeDefs Model.NodeRxDefs Gen.GenTables Gen.GenConsts
   Spec.HbSpec Proofs.HbProofs Proofs.HbProofsSilent.
@@ -21,10 +22,10 @@ Theorem C12_hb_clip : hb_clip_stmt.  Proof. exact hb_clip. Qed.
 Print Assumptions C12_hb_clip.
 Theorem C12_hb_inactive_silent : hb_inactive_silent_stmt.  Proof. exact hb_inactive_silent. Qed.
 Print Assumptions C12_hb_inactive_silent.
-Theorem C12_hb_reenable_refuted : hb_reenable_refuted_stmt.  Proof. exact hb_reenable_refuted. Qed.
-Print Assumptions C12_hb_reenable_refuted.
-Theorem C12_hb_reenable_false : ~ hb_reenable_stmt.  Proof. exact hb_reenable_false. Qed.
-Print Assumptions C12_hb_reenable_false.
+Theorem C12_hb_reenable : hb_reenable_stmt.  Proof. exact hb_reenable. Qed.
+Print Assumptions C12_hb_reenable.
+Theorem C12_hb_open_resync : hb_open_resync_stmt.  Proof. exact hb_open_resync. Qed.
+Print Assumptions C12_hb_open_resync.
 
 (* non-vacuity 1: a cold one-device node (64-bit build, address 22) polled at 5000, 5001, 5202 (opens, claims, sync = 5202), 5453 (claim over),
    15453 (first heartbeat: grid point 15202, interval field 6000 = 0x1770, sequence 0), 75452 (second: grid point 75202, sequence 1 - the late first
@@ -59,3 +60,18 @@ Example C12_nonvacuous_due : forall cfg,
   hb_due r 0 = true /\ hb_now r 0 = 15453 /\ ss_next (x_hb (get_devx r 0)) = 15202.
 Proof. intros cfg. vm_compute. repeat split. Qed.
 Print Assumptions C12_nonvacuous_due.
+
+(* non-vacuity 3 (the repaired findings on their former witnesses): a heartbeat switched off with interval 0 and set to the stored 60 s / 10 s
+   again runs again (next time = first grid point after now; here SyncOffset is still 0 and now = 5000); the defaults stored BEFORE Open()
+   do not keep the schedule on the absolute clock: the node opens at 5202 and the first heartbeat is due after 15202 = 5202 + 10000 *)
+Example C12_nonvacuous_repaired : forall cfg,
+  let r := hb_reenable_witness cfg in
+  ss_next (x_hb (get_devx r 0)) = ss_disabled /\
+  x_hb (get_devx (set_heartbeat_all 1 r 0 60000 10000) 0) = {| ss_next := 10000; ss_offset := 10000; ss_period := 60000 |} /\
+  let r0 := cold_node true 1 5000 40 5 no_lists [mk_dev true 22 1 []] [[]] cfg in
+  let ops := [RSetHeartbeat 60000 10000 (-1); RPoll; RBase (OTick 1); RPoll; RBase (OTick 201); RPoll; RBase (OTick 251); RPoll;
+              RBase (OTick 9749); RPoll; RBase (OTick 1); RPoll] in
+  skipn 8 (snd (rrun gf_none r0 ops)) = [[]; []; []; [EvTx (to_can_id 7 126993 22 255) 8 [112; 23; 0; 255; 255; 255; 255; 255] true]] /\
+  map (fun x => x_hb x) (rx_dev (fst (rrun gf_none r0 ops))) = [{| ss_next := 75202; ss_offset := 10000; ss_period := 60000 |}].
+Proof. intros cfg. vm_compute. repeat split. Qed.
+Print Assumptions C12_nonvacuous_repaired.
